@@ -145,7 +145,7 @@ def check_c15(prop, tier, replay=None):
     rng = random.Random(run.seed * 7 + 15)
     n = 8 if tier == "quick" else 150
     bases = []
-    for name in ("dags", "calendars", "core_dialect", "teams_alts", "limits_profile", "dup_leaf_ids"):
+    for name in ("dags", "calendars", "core_dialect", "teams_alts", "limits_profile", "dup_leaf_ids", "group_hours"):
         bases += getattr(gen, name)(rng, n)
     jobs, pairs, payload = [], [], {}
     for pid, p in bases:
